@@ -76,8 +76,32 @@ hidden state can make the two runs differ; (viii) a harmless refactoring of vrp.
 degree=0.1)`) met a recording wrapper of ours that only took positional arguments (TypeError reported as a violation) - the wrapper now binds through the
 operator's signature; (ix) three oracle tolerances demanded more than the property states and were corrected without touching the judged domain: an LP
 infeasible by 1 at right-hand sides of 1.7e13 (6e-14 relative, below the property's tolerance) is judged against the relaxed LP as well; PageRank runs whose
-`tol` is below binary64 resolution only need back-end agreement; float cases of the observation-only classes are no longer sent to the exact Coq spec check.
+`tol` is below binary64 resolution only need back-end agreement; float cases of the observation-only classes are no longer sent to the exact Coq spec check; (x) running the quick tier under seeds 3..8 on the unchanged tree
+found two false alarms of the C02 work-volume families at seed 7: a planted 3-CNF with 300 variables solved WITHOUT restarts (luby_factor 2^40) had not finished
+after 300 s (132 000 conflicts) - the instance family is now bounded by `max_conflicts=20000` (MAX_ITER at the budget is an accepted answer, the 5001 / 10^4
+thresholds are still crossed); and the option corner `luby_factor=0, max_restarts=9999` legitimately uses all its restarts on an unsatisfiable formula (every conflict
+restarts, 40 CPU-seconds, then MAX_ITER) - that corner now gets a guard proportional to its budget instead of 5 s.  Seeds 0..8 pass for all 20 properties.
 """)
+# ---- section 9b: every fix undone again
+rf_path = f"{V}/seeded/reverted_fixes.json"
+if os.path.exists(rf_path):
+    rf = json.load(open(rf_path))
+    from collections import Counter as _C
+    cnt = _C("reported again with a concrete failing input" if v["result"].startswith("REPORTED AGAIN") else
+             "reported again, no failing input found" if v["result"].startswith("reported again as no-failing") else
+             "cannot be undone on HEAD" if "cannot be undone" in v["result"] else "not reported by the quick tier" for v in rf.values())
+    out.append("\n### 9.1 A fixed entry suppresses nothing: every `fix:` commit undone again (tools/revert_fixes.py)\n")
+    out.append("For each `fixed` entry of `known_findings.json` the diff of its commit was reverse-applied to a scratch worktree of /repo HEAD (tests excluded)")
+    out.append("and the property's quick check (seed 0) was run against that tree.  " + "; ".join(f"{n} {k}" for k, n in cnt.most_common()) + ".")
+    out.append("This pass also exposed three weaknesses of the machinery itself, all repaired: on a tree where most SAT calls do not return (the Luby fix undone)")
+    out.append("the C02 check needed 35 minutes - the heavy / sequence / sweep families are now cut short once five calls have not returned (7 minutes); a harness")
+    out.append("exception on a changed tree (a private helper the recorder wraps is gone, a judge meets an input class it never sees on the unchanged tree) ended as an")
+    out.append("internal error without a VIOLATION line - it now counts as a broken correspondence (`no-failing-input-found`, after any concrete violations found")
+    out.append("before it); the undone `gap_tol` fix b06cee9 (plans of more than 10^6 rolls) was not reported at all - a by-construction family of million-roll")
+    out.append("instances was added.\n")
+    out.append("| commit | property | result | what the fix repaired |"); out.append("|---|---|---|---|")
+    for c, v in rf.items():
+        out.append("| %s | %s | %s | %s |" % (c, v["property"], v["result"].replace("|", "/")[:230], str(v.get("what", "")).replace("|", "/").replace("fixed: property=", "")[:140]))
 # ---- section 10 seeded
 rows = []
 for d in sorted(glob.glob(f"{V}/seeded/*")):
